@@ -21,6 +21,14 @@ const (
 	opRecv
 	opSelect
 	opClose
+	opLock // sync.Mutex / sync.RWMutex acquisition (mode in lockMode)
+)
+
+const (
+	lmLock = iota
+	lmRLock
+	lmTryLock
+	lmTryRLock
 )
 
 type selCase struct {
@@ -36,6 +44,8 @@ type pendingOp struct {
 	cases    []selCase
 	blocking bool
 	where    string
+	mu       *Object // opLock: the mutex (state in Exec.mutexState)
+	lockMode int
 	// results
 	resVal   Value
 	resOk    bool
@@ -205,6 +215,18 @@ func (ex *Exec) enabledTransitions() []transition {
 		switch op.kind {
 		case opClose:
 			out = append(out, transition{kind: 0, t: t, caseIdx: -1, desc: fmt.Sprintf("T%d %s: close(%s)", t.id, op.where, chanName(op.ch))})
+		case opLock:
+			st := ex.mutexState[op.mu]
+			ok := true
+			switch op.lockMode {
+			case lmLock:
+				ok = st == 0
+			case lmRLock:
+				ok = st >= 0
+			}
+			if ok {
+				out = append(out, transition{kind: 0, t: t, caseIdx: -1, desc: fmt.Sprintf("T%d %s: %s(mutex of obj%d)", t.id, op.where, []string{"Lock", "RLock", "TryLock", "TryRLock"}[op.lockMode], op.mu.ID)})
+			}
 		case opSend:
 			eps = append(eps, ep{t, -1, op.ch, true})
 		case opRecv:
@@ -301,6 +323,27 @@ func (ex *Exec) fire(tr transition) {
 	case 0:
 		op := tr.t.pending
 		op.selIdx = tr.caseIdx
+		if op.kind == opLock {
+			st := ex.mutexState[op.mu]
+			switch op.lockMode {
+			case lmLock:
+				ex.mutexState[op.mu] = -1
+			case lmRLock:
+				ex.mutexState[op.mu] = st + 1
+			case lmTryLock:
+				op.resOk = st == 0
+				if op.resOk {
+					ex.mutexState[op.mu] = -1
+				}
+			case lmTryRLock:
+				op.resOk = st >= 0
+				if op.resOk {
+					ex.mutexState[op.mu] = st + 1
+				}
+			}
+			ex.runThread(tr.t)
+			return
+		}
 		if op.kind == opClose {
 			switch {
 			case op.ch == nil:
@@ -352,6 +395,10 @@ func (tr *transition) chanIDs() []int {
 	var out []int
 	add := func(t *thread, idx int) {
 		if t == nil || t.pending == nil {
+			return
+		}
+		if t.pending.kind == opLock {
+			out = append(out, -t.pending.mu.ID-1) // a mutex orders its acquisitions like a channel
 			return
 		}
 		ch, _, _ := opCase(t.pending, idx)
@@ -531,6 +578,17 @@ func (ex *Exec) tRecv(c *ChanVal) (Value, bool) {
 	op := &pendingOp{kind: opRecv, ch: c}
 	ex.park(op)
 	return op.resVal, op.resOk
+}
+
+// tLock: acquiring a mutex is a scheduling point of an interpreted thread (it blocks while
+// the mutex is not available). Releasing is not: it can only enable others.
+func (ex *Exec) tLock(mu *Object, mode int) bool {
+	op := &pendingOp{kind: opLock, mu: mu, lockMode: mode}
+	ex.park(op)
+	if ex.fpOn {
+		ex.fpW[mu.ID] = true
+	}
+	return op.resOk
 }
 
 func (ex *Exec) tClose(c *ChanVal) {
